@@ -168,7 +168,9 @@ def process_chunk(cases):
                 distinct.add(h)
         for (li, o) in judge_fail.get(ci, []):
             oracle_fails.append((li, 'judge inv (Lean checkInv on the state observed from the implementation)', o))
-        if oracle_errors and not oracle_fails and first_diff is None:
+        if oracle_errors and not oracle_fails and first_diff is None and not case.get('corpus'):
+            # (a stored replay recorded against a changed library may name simplices the unchanged library never
+            # generates: there an oracle that cannot be evaluated judges nothing)
             # an oracle could not be evaluated although model and implementation agree: a harness problem
             failures.append(dict(kind='harness-error', tag=case.get('tag'), case=case, error='oracle raised: %r' % (oracle_errors[:2],)))
         if oracle_fails:
